@@ -157,17 +157,44 @@ def _truth_under(test, assume):
 # inlining of private helpers (so that "extract a helper" refactorings do not hide a computation)
 # ---------------------------------------------------------------------------------------
 
-# Private helpers of today's tree that rules anchor on by name: they stay opaque calls.  Every
+# Private helpers of today's tree that rules anchor on by name (helper -> the classes / modules
+# that define it): they stay opaque calls there and in their subclasses.  Every
 # other private (leading underscore) repo-local function or method whose body is straight-line /
 # branching code without loops, state writes or in-place writes to its parameters is expanded at
 # the call site: the caller's path forks per returning path of the callee.
 KEEP_OPAQUE = {
-    "_apply", "_apply_transforms", "_batch_logabsdet", "_cascade", "_compute_params", "_coupling_transform",
-    "_coupling_transform_forward", "_coupling_transform_inverse", "_create_lower_upper", "_create_upper",
-    "_elementwise", "_elementwise_forward", "_elementwise_inverse", "_get_input_degrees", "_get_mask_and_degrees",
-    "_initialize", "_load_from_state_dict", "_log_abs_scale", "_log_prob", "_lu_forward_inverse", "_mean", "_permute",
-    "_piecewise_cdf", "_sample", "_scale_and_shift", "_share_across_batch", "_spline", "_transform_dim_multiplier",
-    "_unconstrained_scale_and_shift", "_check_forward_cache", "_check_inverse_cache", "_output_dim_multiplier",
+    "_apply": {"Linear"},
+    "_apply_transforms": {"HouseholderSequence"},
+    "_batch_logabsdet": {"PointwiseAffineTransform"},
+    "_cascade": {"CompositeTransform"},
+    "_check_forward_cache": {"Linear"},
+    "_check_inverse_cache": {"Linear"},
+    "_compute_params": {"ConditionalDiagonalNormal", "ConditionalIndependentBernoulli"},
+    "_coupling_transform": {"PiecewiseCouplingTransform"},
+    "_coupling_transform_forward": {"AffineCouplingTransform", "CouplingTransform", "PiecewiseCouplingTransform", "UMNNCouplingTransform"},
+    "_coupling_transform_inverse": {"AffineCouplingTransform", "CouplingTransform", "PiecewiseCouplingTransform", "UMNNCouplingTransform"},
+    "_create_lower_upper": {"LULinear"},
+    "_create_upper": {"QRLinear"},
+    "_elementwise": {"MaskedPiecewiseCubicAutoregressiveTransform", "MaskedPiecewiseLinearAutoregressiveTransform", "MaskedPiecewiseQuadraticAutoregressiveTransform", "MaskedPiecewiseRationalQuadraticAutoregressiveTransform"},
+    "_elementwise_forward": {"AutoregressiveTransform", "MaskedAffineAutoregressiveTransform", "MaskedPiecewiseCubicAutoregressiveTransform", "MaskedPiecewiseLinearAutoregressiveTransform", "MaskedPiecewiseQuadraticAutoregressiveTransform", "MaskedPiecewiseRationalQuadraticAutoregressiveTransform", "MaskedUMNNAutoregressiveTransform"},
+    "_elementwise_inverse": {"AutoregressiveTransform", "MaskedAffineAutoregressiveTransform", "MaskedPiecewiseCubicAutoregressiveTransform", "MaskedPiecewiseLinearAutoregressiveTransform", "MaskedPiecewiseQuadraticAutoregressiveTransform", "MaskedPiecewiseRationalQuadraticAutoregressiveTransform", "MaskedUMNNAutoregressiveTransform"},
+    "_get_input_degrees": {"nflows.nn.nde.made", "nflows.transforms.made"},
+    "_get_mask_and_degrees": {"MaskedLinear"},
+    "_initialize": {"ActNorm", "LULinear", "MixtureOfGaussiansMADE", "QRLinear", "SVDLinear"},
+    "_load_from_state_dict": {"Linear"},
+    "_log_abs_scale": {"PointwiseAffineTransform"},
+    "_log_prob": {"ConditionalDiagonalNormal", "ConditionalIndependentBernoulli", "DiagonalNormal", "Distribution", "Flow", "MADEMoG", "StandardNormal"},
+    "_lu_forward_inverse": {"OneByOneConvolution"},
+    "_mean": {"ConditionalDiagonalNormal", "ConditionalIndependentBernoulli", "DiagonalNormal", "Distribution", "StandardNormal"},
+    "_output_dim_multiplier": {"AutoregressiveTransform", "MaskedAffineAutoregressiveTransform", "MaskedPiecewiseCubicAutoregressiveTransform", "MaskedPiecewiseLinearAutoregressiveTransform", "MaskedPiecewiseQuadraticAutoregressiveTransform", "MaskedPiecewiseRationalQuadraticAutoregressiveTransform", "MaskedUMNNAutoregressiveTransform"},
+    "_permute": {"Permutation"},
+    "_piecewise_cdf": {"PiecewiseCouplingTransform", "PiecewiseCubicCouplingTransform", "PiecewiseLinearCouplingTransform", "PiecewiseQuadraticCouplingTransform", "PiecewiseRationalQuadraticCouplingTransform"},
+    "_sample": {"ConditionalDiagonalNormal", "ConditionalIndependentBernoulli", "DiagonalNormal", "Distribution", "Flow", "MADEMoG", "StandardNormal"},
+    "_scale_and_shift": {"AdditiveCouplingTransform", "AffineCouplingTransform"},
+    "_share_across_batch": {"nflows.transforms.nonlinearities"},
+    "_spline": {"PiecewiseCubicCDF", "PiecewiseLinearCDF", "PiecewiseQuadraticCDF", "PiecewiseRationalQuadraticCDF"},
+    "_transform_dim_multiplier": {"AdditiveCouplingTransform", "AffineCouplingTransform", "CouplingTransform", "PiecewiseCubicCouplingTransform", "PiecewiseLinearCouplingTransform", "PiecewiseQuadraticCouplingTransform", "PiecewiseRationalQuadraticCouplingTransform", "UMNNCouplingTransform"},
+    "_unconstrained_scale_and_shift": {"MaskedAffineAutoregressiveTransform"},
 }  # fmt: skip
 
 _CTX = {"program": None, "index": {}, "depth": 0, "stack": []}
@@ -226,6 +253,15 @@ def _only_raises_body(fi):
     return bool(body) and all(isinstance(st, ast.Raise) for st in body)
 
 
+def _kept(target):
+    owners = KEEP_OPAQUE.get(target.name)
+    if not owners:
+        return False
+    if target.cls is None:
+        return target.module.name in owners
+    return any(c.name in owners for c in target.cls.repo_mro()) or any(s.name in owners for s in target.cls.all_subclasses())
+
+
 def _resolve_helper(call, caller):
     """FuncInfo of an inlinable private helper called by `call` from function `caller`, or None."""
     prog = _CTX["program"]
@@ -235,10 +271,10 @@ def _resolve_helper(call, caller):
     target = None
     if isinstance(f, ast.Attribute) and isinstance(f.value, ast.Name) and f.value.id in ("self", "cls") and caller.cls is not None:
         name = f.attr
-        if not name.startswith("_") or name.startswith("__") or name in KEEP_OPAQUE:
+        if not name.startswith("_") or name.startswith("__"):
             return None
         target = caller.cls.lookup_method(name)
-        if target is None:
+        if target is None or _kept(target):
             return None
         # dynamic dispatch: a subclass of the caller's class may override the helper
         for sub in caller.cls.all_subclasses():
@@ -246,20 +282,25 @@ def _resolve_helper(call, caller):
                 return None
     elif isinstance(f, ast.Name):
         name = f.id
-        if not name.startswith("_") or name.startswith("__") or name in KEEP_OPAQUE:
+        if not name.startswith("_") or name.startswith("__"):
             return None
         r = prog.resolve_name(caller.module, name)
         target = r if hasattr(r, "node") and hasattr(r, "params") else None
     elif isinstance(f, ast.Attribute):
         name = f.attr
-        if not name.startswith("_") or name.startswith("__") or name in KEEP_OPAQUE:
+        if not name.startswith("_") or name.startswith("__"):
             return None
-        try:
-            r = prog.resolve_expr(caller.module, f)
-        except Exception:
-            r = None
+        r = None
+        # ClassName._helper(...) from inside the class (static helpers)
+        if isinstance(f.value, ast.Name) and caller.cls is not None and f.value.id in [c.name for c in caller.cls.repo_mro()]:
+            r = caller.cls.lookup_method(name)
+        if r is None:
+            try:
+                r = prog.resolve_expr(caller.module, f)
+            except Exception:
+                r = None
         target = r if hasattr(r, "node") and hasattr(r, "params") else None
-    if target is None or getattr(target, "is_lambda", False) or target.is_property:
+    if target is None or getattr(target, "is_lambda", False) or target.is_property or _kept(target):
         return None
     if id(target.node) in _CTX["stack"] or _only_raises_body(target) or not _inlinable_body(target):
         return None
@@ -331,6 +372,31 @@ def _first_helper_call(expr, caller):
     return found[0] if found else None
 
 
+class _FoldConst(ast.NodeTransformer):
+    """`a if <closed arithmetic test> else b` -> the branch taken (arguments of an inlined helper
+    are often constants: sign=-1, inverse=True)"""
+
+    def visit_IfExp(self, node):
+        self.generic_visit(node)
+        v = _const_truth(node.test)
+        if v is None:
+            return node
+        return node.body if v else node.orelse
+
+
+def _const_truth(test):
+    from .astutil import _int_eval, _NoEval
+
+    if any(isinstance(n, (ast.Name, ast.Attribute, ast.Call, ast.Subscript)) for n in ast.walk(test)):
+        return None
+    try:
+        return bool(_int_eval(test, {}))
+    except _NoEval:
+        return None
+    except Exception:
+        return None
+
+
 def _inlined(expr, p, done, assume, max_paths, caller):
     """[(path, expression)]: `expr` with every inlinable helper call replaced by the helper's
     returned expression; the path forks per returning path of the helper (its conditions and
@@ -362,7 +428,7 @@ def _inlined(expr, p, done, assume, max_paths, caller):
             continue
         q.env = dict(p.env)
         q.kind = None
-        ret = q.ret
+        ret = _FoldConst().visit(q.ret) if q.ret is not None else q.ret
         q.ret = None
         e2 = _ReplaceNode(call, ret).visit(clone_keep(expr, call) if multi else expr) if expr is not call else ret
         out.extend(_inlined(e2, q, done, assume, max_paths, caller))
@@ -560,6 +626,8 @@ def _run_stmt(st, p, done, assume, max_paths, caller=None):
         out = []
         for p0, et in _inlined(expand(st.test, p.env), p, done, assume, max_paths, caller):
             dec = decided
+            if dec is None and p0.env:
+                dec = _const_truth(et)  # a test on constant arguments of an inlined helper
             if dec is None:
                 dec = _already_decided(et, p0)
             if dec is not False:
@@ -593,12 +661,13 @@ def _run_stmt(st, p, done, assume, max_paths, caller=None):
     raise AnalysisIncomplete("unsupported statement %s at line %d" % (type(st).__name__, getattr(st, "lineno", 0)))
 
 
-def body_expansion(stmts):
+def body_expansion(stmts, fnode=None):
     """{name: expression} after executing a straight-line statement list from an empty
     environment (every name read before it is written stays a free Name); None when the
-    statements branch."""
+    statements branch.  With the enclosing function given, private helpers are inlined."""
     done = []
-    live = _run_block(stmts, [Path()], done, {}, MAX_PATHS, None)
+    caller = _CTX["index"].get(id(fnode)) if fnode is not None else None
+    live = _run_block(stmts, [Path()], done, {}, MAX_PATHS, caller)
     if len(live) != 1 or done:
         return None
     return live[0].env
